@@ -235,18 +235,46 @@ func (P *Prog) subsetLoopIn(fn *ssa.Function, own ssa.Value, sinks []*ssa.BasicB
 			cut[e] = true
 		}
 	})
-	if nIs == 0 || nAu == 0 {
-		res.why = append(res.why, "IsSet/Authorize results are not used as branch conditions")
-	}
-	reach := reachableFrom(found.bodyStart, cut)
-	if reach[found.testBlock] {
-		res.why = append(res.why, "an iteration in which the requested bit is set and the requester lacks it can complete (reaches the loop test again)")
-	}
-	for _, sb := range sinks {
-		if reach[sb] {
-			res.why = append(res.why, "Create (or the helper's 'allowed' result) is reachable from inside such an iteration")
-			break
+	used := func(c *ssa.Call) bool {
+		if c.Referrers() == nil {
+			return false
 		}
+		for _, r := range *c.Referrers() {
+			if _, dbg := r.(*ssa.DebugRef); !dbg {
+				return true
+			}
+		}
+		return false
+	}
+	if (nIs == 0 && !used(res.isSet)) || (nAu == 0 && !used(res.auth)) {
+		res.why = append(res.why, "IsSet/Authorize results are not used")
+	}
+	// the refusing iteration: the requested bit is set, the requester lacks it. Walked with these two outcomes fixed
+	// (so that a verdict collected in a flag is followed too), it must neither start another iteration nor reach Create.
+	seed := nilState{res.isSet: 2, res.auth: 1}
+	first, reenter, sinkHit := true, false, false
+	exploreCond([]psItem{{found.bodyStart, seed}}, cut, nil, false, func(b *ssa.BasicBlock, _ nilState) bool {
+		if b == res.isSet.Block() {
+			// the test of the requested bit: reached once in this iteration, a second time only in a next one
+			if first {
+				first = false
+				return true
+			}
+			reenter = true
+			return false
+		}
+		for _, sb := range sinks {
+			if b == sb {
+				sinkHit = true
+			}
+		}
+		return true
+	})
+	if reenter {
+		res.why = append(res.why, "an iteration in which the requested bit is set and the requester lacks it can complete (the loop goes on to the next bit)")
+	}
+	if sinkHit {
+		res.why = append(res.why, "Create (or the helper's 'allowed' result) is reachable from inside such an iteration")
 	}
 	if !found.bodyStart.Dominates(res.isSet.Block()) || !found.bodyStart.Dominates(res.auth.Block()) {
 		res.why = append(res.why, "the IsSet/Authorize tests are not inside the loop body")
@@ -426,6 +454,26 @@ func checkC06(R *Run) {
 			case *ssa.Alloc:
 				cellSet[c] = true
 				cellRefs = append(cellRefs, *c.Referrers()...)
+				// the tested variable is a copy (a by-value parameter of an expanded helper) of another local: what is
+				// said about the copy is said about the original, which must not change once the copy is taken either
+				for cur, d := c, 0; d < 3; d++ {
+					src := soleStoreAny(cur)
+					ld, isLd := src.(*ssa.UnOp)
+					if !isLd || ld.Op != token.MUL {
+						break
+					}
+					orig, isAl := ld.X.(*ssa.Alloc)
+					if !isAl || !pristineCopy(cur) {
+						break
+					}
+					cellSet[orig] = true
+					for _, r := range *orig.Referrers() {
+						if r != ssa.Instruction(ld) {
+							cellRefs = append(cellRefs, r)
+						}
+					}
+					cur = orig
+				}
 			case *ssa.FieldAddr:
 				base, isLocal := c.X.(*ssa.Alloc)
 				if !isLocal {
@@ -714,4 +762,50 @@ func (R *Run) ruleSessionAccessRefresh() {
 		}
 	}
 	R.floor("session-access-refresh", 1)
+}
+
+
+// soleStoreAny: the one value stored whole into the local variable (whatever else is done with the variable); nil
+// when it is stored into more than once.
+func soleStoreAny(a *ssa.Alloc) ssa.Value {
+	var src ssa.Value
+	for _, r := range *a.Referrers() {
+		if st, ok := r.(*ssa.Store); ok && st.Addr == ssa.Value(a) {
+			if src != nil {
+				return nil
+			}
+			src = st.Val
+		}
+	}
+	return src
+}
+
+
+// pristineCopy: the local variable is given its value once and is afterwards only read (loads, IsSet on it, indexed
+// reads) — it still equals what it was copied from.
+func pristineCopy(a *ssa.Alloc) bool {
+	for _, r := range *a.Referrers() {
+		switch x := r.(type) {
+		case *ssa.Store:
+			if x.Addr != ssa.Value(a) {
+				return false
+			}
+		case *ssa.UnOp, *ssa.DebugRef:
+		case *ssa.Call:
+			if calleeName(&x.Call) != "(*hotline.AccessBitmap).IsSet" {
+				return false
+			}
+		case *ssa.IndexAddr:
+			for _, rr := range *x.Referrers() {
+				if u, ok := rr.(*ssa.UnOp); !ok || u.Op != token.MUL {
+					if _, dbg := rr.(*ssa.DebugRef); !dbg {
+						return false
+					}
+				}
+			}
+		default:
+			return false
+		}
+	}
+	return true
 }
